@@ -191,9 +191,28 @@ class Ctx:
                 return "sat", self.model_dict(), None, "z3-incremental"
             if r == z3.unsat:
                 return "unsat", None, None, "z3-incremental"
+            # (1b) nonlinear queries are very sensitive to the search order: a few re-seeded incremental-core attempts with
+            # short caps decide most of what the first attempt missed
+            assertions = list(self.solver.assertions())
+            for k in range(1, 7):
+                s1 = z3.Solver()
+                s1.set("timeout", int(min(1500 * (1 + k // 3), timeout_ms)))
+                s1.set("random_seed", 7919 * k)
+                try:
+                    s1.set("smt.random_seed", 7919 * k)
+                except Exception:
+                    pass
+                s1.push()
+                s1.add(assertions)
+                s1.add(neg)
+                r = s1.check()
+                if r == z3.sat:
+                    return "sat", self.model_dict(s1.model()), None, "z3-incremental-reseeded"
+                if r == z3.unsat:
+                    return "unsat", None, None, "z3-incremental-reseeded"
             s2 = z3.Solver()
             s2.set("timeout", int(timeout_ms))
-            s2.add(self.solver.assertions())
+            s2.add(assertions)
             s2.add(neg)
             r = s2.check()
             if r == z3.sat:
